@@ -451,6 +451,13 @@ fn build_msg(id: u16, qname: &str, n_recs: u64, rec_size: u64, response: bool) -
     let mut mb = MessageBuilder::new_vec();
     mb.header_mut().set_id(id);
     mb.header_mut().set_qr(response);
+    if response {
+        // Whatever a server has to say: NOTAUTH (9) is also what RFC 2136
+        // answers for a zone the server is not authoritative for - with a
+        // TSIG error of 0 it is a response like any other.
+        use domain::base::iana::Rcode;
+        mb.header_mut().set_rcode(*sim::pick("msg.rcode", &[Rcode::NOERROR, Rcode::NOERROR, Rcode::NOERROR, Rcode::NOERROR, Rcode::REFUSED, Rcode::NXDOMAIN, Rcode::NOTAUTH, Rcode::SERVFAIL]));
+    }
     let mut q = mb.question();
     let name = Name::<Vec<u8>>::from_str(qname).unwrap();
     q.push((&name, Rtype::TXT)).unwrap();
@@ -804,11 +811,123 @@ async fn run(_tier: Tier) {
         skew_s: skew("skew.server"),
     };
     ev!("key alg={} min_mac={:?} sign_len={:?} name={} fudge={} skew_c={} skew_s={}", ALG_NAMES[alg], min_mac, sign_len, key_name, fudge, w.skew_c, w.skew_s);
-    match sim::draw("mode", 7) {
+    match sim::draw("mode", 8) {
         0 | 1 => transaction(&w),
         2 | 3 => lib_sequence(&w),
         4 | 5 => model_sequence(&w),
-        _ => middleware_sequence(&w).await,
+        6 => middleware_sequence(&w).await,
+        _ => client_transport(&w).await,
+    }
+}
+
+// ------------------------------------------------- the client transport
+
+/// An honest TSIG server behind the client transport: it takes its time
+/// (virtual) and signs with its own clock, `skew` seconds off the client's.
+struct SlowSignedUpstream {
+    key: std::sync::Arc<Key>,
+    skew: i64,
+    stall_ms: u64,
+}
+
+struct SlowSignedGet<CR> {
+    req: CR,
+    key: std::sync::Arc<Key>,
+    skew: i64,
+    stall_ms: u64,
+}
+
+impl<CR> std::fmt::Debug for SlowSignedGet<CR> {
+    fn fmt(&self, f: &mut std::fmt::Formatter<'_>) -> std::fmt::Result {
+        write!(f, "SlowSignedGet")
+    }
+}
+
+struct SyncFut<T>(Pin<Box<dyn Future<Output = T> + Send>>);
+unsafe impl<T> Sync for SyncFut<T> {}
+impl<T> Future for SyncFut<T> {
+    type Output = T;
+    fn poll(mut self: Pin<&mut Self>, cx: &mut std::task::Context<'_>) -> std::task::Poll<T> {
+        self.0.as_mut().poll(cx)
+    }
+}
+
+impl<CR: domain::net::client::request::ComposeRequest + Send + Sync + 'static> domain::net::client::request::SendRequest<CR> for SlowSignedUpstream {
+    fn send_request(&self, req: CR) -> Box<dyn domain::net::client::request::GetResponse + Send + Sync> {
+        Box::new(SlowSignedGet { req, key: self.key.clone(), skew: self.skew, stall_ms: self.stall_ms })
+    }
+}
+
+impl<CR: domain::net::client::request::ComposeRequest + Send + Sync> domain::net::client::request::GetResponse for SlowSignedGet<CR> {
+    fn get_response(&mut self) -> Pin<Box<dyn Future<Output = Result<Message<bytes::Bytes>, domain::net::client::request::Error>> + Send + Sync + '_>> {
+        let (key, skew, stall_ms) = (self.key.clone(), self.skew, self.stall_ms);
+        let composed = self.req.to_message();
+        Box::pin(SyncFut(Box::pin(async move {
+            let mut req = composed.expect("request composes");
+            let now = t48((sim::wall_secs() as i64 + skew) as u64);
+            let tsig = match ServerTransaction::request(&key, &mut req, now) {
+                Ok(Some(t)) => t,
+                other => {
+                    sim::violation(P, "completeness", "client-transport-request-rejected".to_string(), format!("the honest server could not verify the transport's request: {:?}", other.map(|o| o.is_some()).map_err(|e| format!("{:?}", e.error()))));
+                    return Err(domain::net::client::request::Error::StreamReadError(std::sync::Arc::new(std::io::Error::other("request rejected"))));
+                }
+            };
+            // The request is in; the answer takes its time.
+            if stall_ms > 0 {
+                tokio::time::sleep(Duration::from_millis(stall_ms)).await;
+                sim::sync_clock();
+            }
+            let now = t48((sim::wall_secs() as i64 + skew) as u64);
+            let builder = MessageBuilder::new_bytes().start_answer(&req, domain::base::iana::Rcode::NOERROR).expect("start_answer");
+            let mut builder = builder.additional();
+            tsig.answer(&mut builder, now).expect("sign");
+            Ok(builder.into_message())
+        })))
+    }
+}
+
+/// `net::client::tsig::Connection` over an honest, slow server whose clock
+/// is off by a legal or an illegal amount: the response's time is judged
+/// when the response arrives, whatever time the exchange took.
+async fn client_transport(w: &World) {
+    use domain::net::client::request::{RequestMessage, SendRequest};
+    let key = std::sync::Arc::new(w.lib_key.clone());
+    // (The transport signs with the default fudge of 300 s.)
+    // (Only legal skews: a server further off would refuse the request.)
+    let skew = *sim::pick("ct.skew", &[0i64, 299, -299, 150, 300, -300]);
+    let stall_ms = *sim::pick("ct.stall_ms", &[0u64, 500, 2_000, 10_000, 400_000]);
+    sim::stat("probe.client_transport_mode");
+    if stall_ms >= 2_000 && skew.abs() >= 299 {
+        sim::stat("probe.slow_answer_from_a_server_at_the_edge_of_the_fudge");
+    }
+    let conn = domain::net::client::tsig::Connection::new(key.clone(), SlowSignedUpstream { key, skew, stall_ms });
+    let n = 1 + sim::draw("ct.n", 3);
+    for i in 0..n {
+        let msg = build_msg(100 + i as u16, "ct.example.", 0, 0, false).into_message();
+        let req = RequestMessage::new(msg).expect("request");
+        let mut g = conn.send_request(req);
+        let res = g.get_response().await;
+        sim::sync_clock();
+        ev!("client transport: skew {} s, stall {} ms -> {}", skew, stall_ms, match &res { Ok(_) => "Ok".to_string(), Err(e) => format!("{:?}", e) });
+        // With both clocks read when the response is there, the response's
+        // time differs from the client's by the skew alone.
+        match (&res, skew.abs() <= 300) {
+            (Ok(m), true) => {
+                if m.header_counts().arcount() != 0 {
+                    sim::violation(P, "restore", "client-transport-left-the-tsig-record".to_string(), "the verified response still carries an additional record".to_string());
+                    return;
+                }
+            }
+            (Err(e), true) => {
+                sim::violation(P, "completeness", format!("client-transport-rejects-honest-response/{}", format!("{:?}", e).split(['(', ' ', ')']).nth(1).unwrap_or("?")), format!("honest server, clock {} s off (fudge 300), answer after {} ms: {:?}", skew, stall_ms, e));
+                return;
+            }
+            (Ok(_), false) => {
+                sim::violation(P, "soundness", "client-transport-accepted/BadTime".to_string(), format!("a response signed {} s off the client's clock (fudge 300) was accepted after a stall of {} ms", skew, stall_ms));
+                return;
+            }
+            (Err(_), false) => {}
+        }
     }
 }
 
